@@ -887,6 +887,9 @@ func inductionName(header *ssa.BasicBlock) string {
 // need no translation; only plain parameters (`arg#k`) do.
 var paramBind = map[*ssa.Parameter]string{}
 
+// paramBindV: the argument values themselves (for following a value across the call boundary).
+var paramBindV = map[*ssa.Parameter]ssa.Value{}
+
 // bindCall runs f with g's parameters bound to the arguments of the call c (descriptors taken in the
 // current context, so bindings compose along a call chain).
 func bindCall(c ssa.CallInstruction, g *ssa.Function, f func()) {
@@ -899,9 +902,11 @@ func bindCall(c ssa.CallInstruction, g *ssa.Function, f func()) {
 	}
 	// closures: free variables are not rebound (their descriptors are `free:name`)
 	type saved struct {
-		p   *ssa.Parameter
-		old string
-		had bool
+		p    *ssa.Parameter
+		old  string
+		had  bool
+		oldV ssa.Value
+		hadV bool
 	}
 	var sv []saved
 	descs := make([]string, len(args))
@@ -913,8 +918,10 @@ func bindCall(c ssa.CallInstruction, g *ssa.Function, f func()) {
 			break
 		}
 		old, had := paramBind[p]
-		sv = append(sv, saved{p, old, had})
+		oldV, hadV := paramBindV[p]
+		sv = append(sv, saved{p, old, had, oldV, hadV})
 		paramBind[p] = descs[i]
+		paramBindV[p] = args[i]
 	}
 	defer func() {
 		for _, x := range sv {
@@ -922,6 +929,11 @@ func bindCall(c ssa.CallInstruction, g *ssa.Function, f func()) {
 				paramBind[x.p] = x.old
 			} else {
 				delete(paramBind, x.p)
+			}
+			if x.hadV {
+				paramBindV[x.p] = x.oldV
+			} else {
+				delete(paramBindV, x.p)
 			}
 		}
 	}()
@@ -943,4 +955,97 @@ func bindingSig(fn *ssa.Function) string {
 		}
 	}
 	return sb.String()
+}
+
+// origin follows a value backwards through conversions, single-assignment locals, bound parameters and
+// module-internal helpers that return it, to the instruction that produced it.
+func origin(v ssa.Value) ssa.Value { return originD(v, 0) }
+
+func originD(v ssa.Value, depth int) ssa.Value {
+	if depth > 12 || v == nil {
+		return v
+	}
+	switch x := v.(type) {
+	case *ssa.Parameter:
+		if b, ok := paramBindV[x]; ok && b != nil {
+			return originD(b, depth+1)
+		}
+	case *ssa.ChangeType:
+		return originD(x.X, depth+1)
+	case *ssa.UnOp:
+		if x.Op == token.MUL {
+			if al, ok := x.X.(*ssa.Alloc); ok {
+				var val ssa.Value
+				n := 0
+				for _, r := range referrersOf(al) {
+					if st, ok := r.(*ssa.Store); ok && st.Addr == ssa.Value(al) {
+						val = st.Val
+						n++
+					}
+				}
+				if n == 1 {
+					return originD(val, depth+1)
+				}
+			}
+		}
+	case *ssa.Call:
+		if g := staticCallee(x); g != nil && inModuleFn(g) && g.Blocks != nil && g.Signature.Results().Len() == 1 && bigMethod(x) == "" && !isBigWrapperFn(g) {
+			var res ssa.Value
+			n := 0
+			bindCall(x, g, func() {
+				dead := deadBlocks(g)
+				for _, r := range returnsOf(g) {
+					if dead[r.Block()] {
+						continue
+					}
+					o := originD(r.Results[0], depth+1)
+					if n == 0 || o == res {
+						res = o
+						if n == 0 {
+							n = 1
+						}
+					} else {
+						n = 2
+					}
+				}
+			})
+			if n == 1 && res != nil {
+				return res
+			}
+		}
+	}
+	return v
+}
+
+// deepVisit calls visit for fn and, with their parameters bound to the call's arguments, for the
+// module-internal functions fn calls (the helpers a block of fn may have been extracted into).
+func deepVisit(P *Program, fn *ssa.Function, depth int, visit func(g *ssa.Function)) {
+	seen := map[*ssa.Function]bool{}
+	var walk func(g *ssa.Function, d int)
+	walk = func(g *ssa.Function, d int) {
+		if g == nil || g.Blocks == nil || seen[g] {
+			return
+		}
+		seen[g] = true
+		visit(g)
+		if d <= 0 {
+			return
+		}
+		for _, c := range callsIn(g) {
+			h := staticCallee(c)
+			if h == nil || !inModuleFn(h) || h.Blocks == nil || h.Pkg != fn.Pkg || isBigWrapperFn(h) {
+				continue
+			}
+			if h.Object() != nil && h.Object().Exported() && h.Parent() == nil {
+				continue // exported functions are entry points of their own, not extracted blocks
+			}
+			bindCall(c, h, func() { walk(h, d-1) })
+		}
+	}
+	walk(fn, depth)
+}
+
+// isBigWrapperFn: functions of the module's own big.Int wrapper package are primitives of the analysis.
+func isBigWrapperFn(g *ssa.Function) bool {
+	return g != nil && g.Pkg != nil && strings.HasSuffix(g.Pkg.Pkg.Path(), "/gabi/big")
 }
